@@ -266,6 +266,21 @@ class Ctx:
                 excluded.add(viol.sig)
                 attempt += 1
                 continue
+            except Exception as e:
+                # Hypothesis could not reproduce a failure it had seen (the
+                # case involves real threads): the violation was observed
+                # against the real code, so it is reported, marked as such.
+                if 'last' in state and type(e).__name__ in (
+                        'FlakyFailure', 'Flaky', 'FlakyReplay',
+                        'ExceptionGroup'):
+                    case, viol = state['last']
+                    viol.detail = '[schedule-dependent, not reproduced on ' \
+                        'immediate re-run] ' + viol.detail
+                    self.record_violation(stage, case, viol)
+                    excluded.add(viol.sig)
+                    attempt += 1
+                    continue
+                raise
             break
 
     def record_violation(self, stage, case, viol):
